@@ -13,6 +13,7 @@ XSet == {<<16, 24, 40>>, <<-16, 0, 8>>}
 SSet == {<<0, 0, 0>>, <<3, -5, 11>>, <<-3, 20, -13>>}
 \* ... plus a particle at a non-integer position with all-zero shifts (update_coord must still round it)
 First == {P(sid, x, s, 0) : sid \in {2, 5, 12}, x \in XSet, s \in SSet} \cup {P(sid, <<19, -5, 42>>, <<0, 0, 0>>, 0) : sid \in {2, 5, 12}}
+         \cup {P(0, <<16, 24, 40>>, s, 0) : s \in SSet}          \* the subtomogram number 0 (even: half-set A)
 Second == {P(sid, x, s, 7) : sid \in {5, 4, 1}, x \in XSet, s \in SSet}
 SmallLists == {<<a>> : a \in First} \cup {<<a, b>> : a \in First, b \in Second}
 =============================================================================
